@@ -199,7 +199,7 @@ def drive_and_judge(ck, tag, lines_in, setup):
     if crashed or hung:
         ck.note("driver: %d crashed, %d hung; sanitizer output: %s" % (crashed, hung, xc.worker_stderr(op, 1500)))
     xc.report_bad(ck, "MustacheTrace", lines, bad, lambda ln: lines_in[ln - 1])
-    by = xc.report_obs(ck, lines, obs, xc.load_observations("X17"))
+    by = xc.report_obs(ck, lines, obs, xc.load_observations("X17"), limit=1)
     return lines, bad, {ln for lns in by.values() for ln in lns}
 
 
